@@ -413,6 +413,11 @@ func (env *SpecEnv) typed(v Val) Val {
 			g = tTrue
 		}
 		env.vc.sc.Assume(mkImplies(g, env.vc.wellTyped(fv, env.cur)), "")
+		if env.cur.Sym == nil {
+			// the heap is closed: a pointer or slice read from memory refers to an
+			// object allocated before the state it is read in
+			env.vc.sc.Assume(mkImplies(g, env.vc.ptrAllocated(fv, env.cur)), "")
+		}
 	}
 	return v
 }
